@@ -10,9 +10,11 @@ mod createmodel;
 mod enumerate;
 mod gen;
 mod json;
+mod npyref;
 mod par;
 mod props;
 mod refmodel;
+mod seam;
 mod subject;
 mod verdict;
 
